@@ -55,10 +55,6 @@ func ZZ_C11_V1s_Sensors() {
 	}
 }
 
-var zzNames = []string{"a", "b", "c", "d"}
-
-func zzName(prefix string, i int) string { return prefix + zzNames[i] }
-
 var zzFunctionTypes = []string{FunctionSum, FunctionDifference, FunctionAverage, FunctionDelta, FunctionMinimum, FunctionMaximum, "median"}
 
 // zzCurveEntry (graph harness): a linear curve or a function curve with 0..2 symbolic members
